@@ -614,11 +614,14 @@ def run(ctx):
 
     # ---- leg M + A: getter protocol over a value pool ---------------------------------------------
     # (the numeric strings include the candidate bounds 0 / 10 / 7.0 themselves: boundary cases)
+    # (JSON texts with 2-, 3- and 4-octet characters inside strings and as object keys: the octet length of
+    #  the text differs from its character count; they reach the request percent-encoded)
     pool = ['', '-3', '0', '10', '7.0', 'abc', 'true', '0a5b8f3c-9a1e-4c7d-8b2f-1f2e3d4c5b6a', '2024-02-29',
+            '{"€😀": "Zürich"}', '{"city":"Zürich"}', '"你好"', '["😀", {"ключ": "é"}]',
             '12', '1.5', ' 7 ', 'no', '1e1', '41', '2024-02-29T12:30:45+0100', '{"a": [1, 2]}', '"x"',
             'é,&=+%', '１２', '9999999999999', '2024-02-30']
     if ctx.quick:
-        pool = pool[:9]
+        pool = pool[:10]
     table = {'nv': len(pool), 'conv': {}}
     unrep = set()            # (kind, value index) the abstraction cannot represent: those cases are not replayed
     for kind in ('str', 'int', 'float', 'bool', 'uuid', 'datetime', 'date', 'json'):
@@ -751,7 +754,8 @@ def run(ctx):
     names = ['a', 'b', 'a', '%61', 'é', 'a%20b', '', 'id', 'a+b', '%C3%A9', 'x%', 'q']
     values = ['', '', '1', '12', '-3', '+7', '%31%32', '1.5', '.5', '1e2', 'true', 'True', 'no', 'on', 'maybe',
               '0a5b8f3c-9a1e-4c7d-8b2f-1f2e3d4c5b6a', '{0a5b8f3c9a1e4c7d8b2f1f2e3d4c5b6a}', '2024-02-29', '2024-13-01',
-              '2024-02-29T12:30:45%2B0100', '2024-02-29T12:30:45Z', '%7B%22a%22%3A1%7D', '[1,2]', '%22x%22', 'nul', 'abc',
+              '2024-02-29T12:30:45%2B0100', '2024-02-29T12:30:45Z', '%7B%22a%22%3A1%7D',
+              '%7B%22city%22%3A%22Z%C3%BCrich%22%7D', '%22%E2%82%AC%22', '%5B%22%F0%9F%98%80%22%5D', '"é"', '{"ü":1}', '[1,2]', '%22x%22', 'nul', 'abc',
               'a%2Cb', '%2c', 'x%ZZ', '%', '%4', '%C3%A9', '%C3', '%FF', 'é', '😀', '%00', 'a=b', '==', '１２', '1_0',
               ' 1', '1%20', '0x10', '1,2', ',', ',,', '1,', ',2', '1,,3', '%2C,%2c']
     alpha = [chr(x) for x in (38, 61, 44, 43, 37, 52, 49, 67, 51, 97, 71, 0, 233)]
